@@ -1,6 +1,7 @@
 import GmQuic.Model.Res
 import GmQuic.Model.FrameType
 import GmQuic.Gen.FrameTable
+import GmQuic.Gen.SidConsts
 /-!
 Executable model of the frame codecs of `qbase/src/frame/*.rs`, transliterated field by field:
 `enc` (= `put_frame` / `put_data_frame`), `dec` (= the `be_*` parsers + `complete_frame` +
@@ -15,8 +16,8 @@ namespace GmQuic.Codec
 open GmQuic.Wire GmQuic.Gen
 
 def varintMax : Nat := 2 ^ 62 - 1
-/-- `qbase::sid::MAX_STREAMS_LIMIT` (tied by Gen/SidConsts in C12; literal here, compared by the run). -/
-def maxStreamsLimit : Nat := 2 ^ 60
+/-- `qbase::sid::MAX_STREAMS_LIMIT`, generated from `sid.rs` (Gen/SidConsts, C12's plug-in). -/
+def maxStreamsLimit : Nat := GmQuic.Gen.maxStreamsLimit
 def maxCidSize : Nat := 20
 def resetTokenSize : Nat := 16
 
